@@ -117,6 +117,7 @@ class C20(Property):
     ID = "C20"
     SESSIONS = ["s0"]
     RUNS = {"quick": (300, 500), "thorough": (6000, 10000)}
+    MUST_REACH = {"probes": ["invariance_checked", "kernel_runs", "workers_2", "workers_3", "workers_4", "kernel_buffer_reuse", "pairs_checked"], "faults": ["preemptions", "worker_stall"]}
     COMPONENTS = {"real": ["cryocat.memthick.measure_thickness_cpu / process_matches_cpu2cpu (working tree of /repo)",
                            "Python source of the numba kernel find_matches_parallel (.py_func)",
                            "compiled kernel with NUMBA_NUM_THREADS=1 (cross-check only)", "scipy KDTree", "numpy"],
@@ -346,6 +347,7 @@ class C20(Property):
                     world.fs.fired["preemptions"] += out.value["switches"]
                     world.stats["kernel_line_steps"] += out.value["steps"]
                     world.note("sched %x" % out.value["sig"])
+                    world.reached("thread_schedules", "%x" % out.value["sig"])
                     if stall:
                         world.fs.fired["worker_stall"] += 1
                     world.probes["workers_%d" % step["workers"]] += 1
